@@ -81,6 +81,15 @@ def adversarial_rows(t, sent, cfg):
                 if c != best:
                     row[c] = float(-100 - t.below(41))
             continue
+        if cfg['use_beta'] and t.chance(24):
+            # a word all of whose probabilities underflow float32 exp() (best log-probability below -92): by the
+            # statement the tags within log(beta) of the best are still the only admissible ones
+            best = t.below(len(row))
+            s0 = float(-93 - t.below(60))
+            for c in range(len(row)):
+                row[c] = s0 if c == best else t.pick([
+                    -1e33, f32(s0 + math.log(beta) - 3), f32(s0 + math.log(beta) + 3), s0 - 0.5, f32(s0 + 2 * math.log(beta))])
+            continue
         if not t.chance(170):
             continue
         T = len(row)
